@@ -148,7 +148,7 @@ def run(argv, stdin=b'', cwd=None, env=None, timeout=20, preexec=None):
 def run_progress(argv, stdin=b'', cwd=None, env=None, idle=60, total=600, preexec=None):
     """like run(), but the verdict on a process that does not end is based on PROGRESS: the editor (hook
     neatvi_verif_progress) writes one byte per executed command to a pipe.  Returns (Result, state, commands) with state
-    'done', 'stuck' (no command finished for `idle` seconds) or 'running' (still executing commands after `total` seconds)."""
+    'done', 'stuck' (no command finished for `idle` seconds), 'starved' (asleep waiting for more input after the whole stream was consumed) or 'running' (still executing commands after `total` seconds)."""
     import selectors
     t0 = time.time()
     pr, pw = os.pipe()
@@ -176,6 +176,12 @@ def run_progress(argv, stdin=b'', cwd=None, env=None, idle=60, total=600, preexe
         now = time.time()
         if now - last > idle:
             state = 'stuck'
+            try:    # asleep in read()/poll() on its input: the stream ran out inside a text block or a prompt - nothing hangs
+                sc = open('/proc/%d/syscall' % p.pid).read().split()
+                if sc and sc[0] in ('0', '7', '23', '271') and pos >= len(stdin):
+                    state = 'starved'
+            except OSError:
+                pass
             break
         if now - t0 > total:
             state = 'running'
